@@ -194,8 +194,8 @@ func coqHx(b []byte) string {
 	}
 	return "(hxs " + coqList(parts) + ")"
 }
-func coqU64(x uint64) string { return fmt.Sprintf("%d%%N", x) }
-func coqStr(s string) string { return `"` + s + `"` }
+func coqU64(x uint64) string      { return fmt.Sprintf("%d%%N", x) }
+func coqStr(s string) string      { return `"` + s + `"` }
 func coqOptBig(x *big.Int) string { return coqOptZ(x) }
 func coqBytesLit(b []byte) string { return coqHx(b) }
 
